@@ -7,7 +7,6 @@ package dnsforward
 
 import (
 	"crypto/tls"
-	"encoding/binary"
 	"encoding/json"
 	"fmt"
 	"math/rand"
@@ -17,10 +16,11 @@ import (
 	"net/url"
 	"strings"
 	"testing"
+	"time"
 
+	"github.com/AdguardTeam/AdGuardHome/internal/filtering"
 	"github.com/AdguardTeam/dnsproxy/proxy"
 	"github.com/AdguardTeam/golibs/errors"
-	"github.com/AdguardTeam/golibs/logutil/slogutil"
 	"github.com/miekg/dns"
 	"github.com/quic-go/quic-go"
 )
@@ -106,28 +106,11 @@ func zzC16PctEncode(rng *rand.Rand, seg string) (enc string) {
 	return url.PathEscape(seg[:i]) + fmt.Sprintf("%%%02X", seg[i]) + url.PathEscape(seg[i+1:])
 }
 
-// zzC16Run concretises one abstract input, drives the real server code and
-// returns the abstract outcome together with a description of the concrete
-// request.
-func zzC16Run(in *zzC16In, rng *rand.Rand, reqID uint64) (out zzC16Out, concrete string, err error) {
-	acc, err := newAccessCtx(nil, nil, nil)
-	if err != nil {
-		return out, "", fmt.Errorf("access ctx: %w", err)
-	}
-
-	srv := &Server{
-		conf: ServerConfig{TLSConf: &TLSConfig{
-			ServerName:     zzC16Name(in.Host),
-			StrictSNICheck: in.Strict,
-		}},
-		baseLogger:    slogutil.NewDiscardLogger(),
-		clientIDCache: zzNewClientIDCache(),
-	}
-	srv.access.Store(acc)
-
+// zzC16Request builds the concrete proxy context for one abstract input.
+func zzC16Request(in *zzC16In, rng *rand.Rand, reqID uint64, confName string) (pctx *proxy.DNSContext, concrete string, err error) {
 	cli := zzC16Name(in.Cli)
 	req := (&dns.Msg{}).SetQuestion("probe.example.org.", dns.TypeA)
-	pctx := &proxy.DNSContext{
+	pctx = &proxy.DNSContext{
 		Proto:     zzC16Protos[in.Proto],
 		Req:       req,
 		Addr:      netip.MustParseAddrPort("192.0.2.7:5353"),
@@ -155,13 +138,20 @@ func zzC16Run(in *zzC16In, rng *rand.Rand, reqID uint64) (out zzC16Out, concrete
 		var u *url.URL
 		u, err = url.Parse("https://placeholder.invalid" + raw)
 		if err != nil {
-			return out, raw, fmt.Errorf("parsing url: %w", err)
+			return nil, raw, fmt.Errorf("parsing url: %w", err)
 		}
 
 		r := &http.Request{Method: http.MethodGet, ProtoMajor: 1, ProtoMinor: 1, URL: u, Header: http.Header{}}
 		if in.Via == "sni" {
 			r.TLS = &tls.ConnectionState{ServerName: cli}
-			r.Host = "unrelated.host.example"
+			// With a TLS connection state the Host header says nothing about
+			// the ClientID, whatever it contains.
+			base := confName
+			if base == "" {
+				base = "example.com"
+			}
+
+			r.Host = []string{"unrelated.host.example", "cli." + base, base, "", "cli." + base + ":443"}[rng.Intn(5)]
 		} else {
 			r.Host = cli
 			if in.Port {
@@ -170,7 +160,7 @@ func zzC16Run(in *zzC16In, rng *rand.Rand, reqID uint64) (out zzC16Out, concrete
 		}
 
 		pctx.HTTPRequest = r
-		concrete = fmt.Sprintf("path=%q host=%q tls=%v", raw, r.Host, r.TLS != nil)
+		concrete = fmt.Sprintf("path=%q host=%q tls=%v sni=%q", raw, r.Host, r.TLS != nil, cli)
 	default:
 		// Plain protocols: offer a TLS-looking connection anyway, it must be
 		// ignored.
@@ -178,7 +168,79 @@ func zzC16Run(in *zzC16In, rng *rand.Rand, reqID uint64) (out zzC16Out, concrete
 		concrete = "plain, conn sni=" + cli
 	}
 
-	herr := srv.HandleBefore(nil, pctx)
+	return pctx, concrete, nil
+}
+
+
+// zzC16Live is ONE long-lived server that is reconfigured (real Prepare) when
+// the configured server name / strict flag of the next vector differs from
+// the current ones.  The ClientID is observed through the real read path
+// (processInitial), not by peeking into the cache.
+type zzC16Live struct {
+	srv    *Server
+	host   string
+	strict bool
+	n      uint64
+	prep   int
+}
+
+func zzC16NewLive(t *testing.T) (l *zzC16Live) {
+	srv := createTestServer(t, &filtering.Config{
+		BlockingMode: filtering.BlockingModeDefault,
+	}, ServerConfig{
+		UDPListenAddrs: []*net.UDPAddr{{IP: net.IP{127, 0, 0, 1}}},
+		TCPListenAddrs: []*net.TCPAddr{{IP: net.IP{127, 0, 0, 1}}},
+		TLSConf:        &TLSConfig{},
+		Config: Config{
+			UpstreamMode:     UpstreamModeLoadBalance,
+			EDNSClientSubnet: &EDNSClientSubnet{Enabled: false},
+			ClientsContainer: EmptyClientsContainer{},
+		},
+		ServePlainDNS: true,
+	})
+
+	return &zzC16Live{srv: srv}
+}
+
+// nextID returns request identifiers that are unique as 64-bit numbers but
+// collide in their low 32 bits every 509 requests, as the identifiers of a
+// long-running proxy eventually do.
+func (l *zzC16Live) nextID() (id uint64) {
+	l.n++
+
+	return (l.n % 509) | ((l.n / 509) << 32)
+}
+
+func (l *zzC16Live) configure(host string, strict bool) (err error) {
+	if l.prep > 0 && l.host == host && l.strict == strict {
+		return nil
+	}
+
+	conf := l.srv.conf
+	conf.TLSConf = &TLSConfig{ServerName: host, StrictSNICheck: strict}
+	err = l.srv.Prepare(&conf)
+	if err != nil {
+		return fmt.Errorf("reconfiguring: %w", err)
+	}
+
+	l.host, l.strict = host, strict
+	l.prep++
+
+	return nil
+}
+
+// run concretises one abstract input and drives it through the live server.
+func (l *zzC16Live) run(in *zzC16In, rng *rand.Rand) (out zzC16Out, concrete string, err error) {
+	if err = l.configure(zzC16Name(in.Host), in.Strict); err != nil {
+		return out, "", err
+	}
+
+	pctx, concrete, err := zzC16Request(in, rng, l.nextID(), zzC16Name(in.Host))
+	if err != nil {
+		return out, concrete, err
+	}
+
+	herr := l.srv.HandleBefore(nil, pctx)
 	if herr != nil {
 		var bre *proxy.BeforeRequestError
 		if errors.As(herr, &bre) && bre.Response != nil && bre.Response.Rcode == dns.RcodeServerFailure {
@@ -188,14 +250,13 @@ func zzC16Run(in *zzC16In, rng *rand.Rand, reqID uint64) (out zzC16Out, concrete
 		return zzC16Out{K: "other", V: herr.Error()}, concrete, nil
 	}
 
-	key := [8]byte{}
-	binary.BigEndian.PutUint64(key[:], reqID)
-	id := string(srv.clientIDCache.Get(key[:]))
-	if id == "" {
+	dctx := &dnsContext{proxyCtx: pctx, result: &filtering.Result{}, startTime: time.Now()}
+	_ = l.srv.processInitial(dctx)
+	if dctx.clientID == "" {
 		return zzC16Out{K: "none"}, concrete, nil
 	}
 
-	return zzC16Out{K: "id", V: id}, concrete, nil
+	return zzC16Out{K: "id", V: dctx.clientID}, concrete, nil
 }
 
 func zzC16Admissible(v *zzC16Vec, got zzC16Out) (ok bool) {
@@ -212,49 +273,80 @@ func zzC16Admissible(v *zzC16Vec, got zzC16Out) (ok bool) {
 	return false
 }
 
-// TestZZVerifC16Replay is direction A.
+// TestZZVerifC16Replay is direction A.  All vectors are replayed on ONE live
+// server in several passes; in every pass the configurations (server name,
+// strict flag) are visited in a seeded order through real reconfigurations and
+// the vectors of a configuration in a seeded order, so that every input is
+// seen under every configuration after different histories: the outcome may
+// depend on the current configuration and the request only.
 func TestZZVerifC16Replay(t *testing.T) {
 	w := zzNewWriter(t, "VERIF_OUT")
 	defer w.close()
 
 	rng := rand.New(rand.NewSource(zzSeed()))
-	n, bad := 0, 0
+	groups := map[string][]*zzC16Vec{}
+	var keys []string
 	zzReadNDJSON(t, "VERIF_IN", func(line []byte) {
 		v := &zzC16Vec{}
 		if err := json.Unmarshal(line, v); err != nil {
 			t.Fatalf("bad vector: %v", err)
 		}
 
-		n++
-		got, conc, err := zzC16Run(&v.In, rng, uint64(n))
-		if err != nil {
-			w.put(map[string]any{"kind": "skip", "in": v.In, "err": err.Error()})
-
-			return
+		k := fmt.Sprintf("%s|%v", zzC16Name(v.In.Host), v.In.Strict)
+		if _, ok := groups[k]; !ok {
+			keys = append(keys, k)
 		}
 
-		if zzC16Admissible(v, got) {
-			return
-		}
-
-		// Reproduce in isolation before reporting.
-		got2, conc2, _ := zzC16Run(&v.In, rand.New(rand.NewSource(1)), uint64(n)+1<<40)
-		if zzC16Admissible(v, got2) {
-			got3, _, _ := zzC16Run(&v.In, rng, uint64(n)+2<<40)
-			if zzC16Admissible(v, got3) {
-				w.put(map[string]any{"kind": "flaky", "in": v.In, "got": got, "concrete": conc})
-
-				return
-			}
-		} else {
-			conc, got = conc2, got2
-		}
-
-		bad++
-		w.put(map[string]any{"kind": "bad", "in": v.In, "want": v.Out, "got": got, "concrete": conc})
+		groups[k] = append(groups[k], v)
 	})
 
-	w.put(map[string]any{"kind": "summary", "n": n, "bad": bad})
+	passes := 2
+	if v := zzGetenv("VERIF_C16_PASSES"); v != "" {
+		_, _ = fmt.Sscanf(v, "%d", &passes)
+	}
+
+	live := zzC16NewLive(t)
+	n, bad, flaky := 0, 0, 0
+	for pass := 0; pass < passes; pass++ {
+		rng.Shuffle(len(keys), func(i, j int) { keys[i], keys[j] = keys[j], keys[i] })
+		for _, k := range keys {
+			vs := groups[k]
+			rng.Shuffle(len(vs), func(i, j int) { vs[i], vs[j] = vs[j], vs[i] })
+			for _, v := range vs {
+				n++
+				got, conc, err := live.run(&v.In, rng)
+				if err != nil {
+					w.put(map[string]any{"kind": "skip", "in": v.In, "err": err.Error()})
+
+					continue
+				}
+
+				if zzC16Admissible(v, got) {
+					continue
+				}
+
+				// Reproduce: again on the live server (same history) and alone
+				// on a fresh server.
+				got2, conc2, _ := live.run(&v.In, rng)
+				fresh := zzC16NewLive(t)
+				got3, conc3, _ := fresh.run(&v.In, rand.New(rand.NewSource(1)))
+				switch {
+				case !zzC16Admissible(v, got3):
+					bad++
+					w.put(map[string]any{"kind": "bad", "in": v.In, "want": v.Out, "got": got3, "concrete": conc3, "how": "alone on a fresh server"})
+				case !zzC16Admissible(v, got2):
+					bad++
+					w.put(map[string]any{"kind": "bad", "in": v.In, "want": v.Out, "got": got2, "concrete": conc2,
+						"how": fmt.Sprintf("history-dependent: on the live server after %d requests and %d reconfigurations; admissible alone on a fresh server", live.n, live.prep)})
+				default:
+					flaky++
+					w.put(map[string]any{"kind": "flaky", "in": v.In, "got": got, "concrete": conc})
+				}
+			}
+		}
+	}
+
+	w.put(map[string]any{"kind": "summary", "n": n, "bad": bad, "flaky": flaky, "reconfigurations": live.prep, "passes": passes})
 }
 
 // ---------------------------------------------------------------- direction B
@@ -323,13 +415,20 @@ func TestZZVerifC16Trace(t *testing.T) {
 		n = 40000
 	}
 
+	live := zzC16NewLive(t)
 	hosts := [][]string{{}, {"example", "com"}, {"dns", "home", "example", "org"}, {"h", "test"}}
+	curHost, curStrict := hosts[1], false
 	protos := []string{"udp", "tcp", "dnscrypt", "tls", "quic", "https", "https", "https", "tls", "quic"}
 	for i := 0; i < n; i++ {
+		if i%97 == 0 {
+			// The administrator changes the TLS settings now and then.
+			curHost, curStrict = hosts[rng.Intn(len(hosts))], rng.Intn(2) == 0
+		}
+
 		in := zzC16In{
 			Proto:  protos[rng.Intn(len(protos))],
-			Host:   hosts[rng.Intn(len(hosts))],
-			Strict: rng.Intn(2) == 0,
+			Host:   curHost,
+			Strict: curStrict,
 			Via:    "sni",
 			Cli:    []string{},
 			Path:   []string{},
@@ -387,7 +486,7 @@ func TestZZVerifC16Trace(t *testing.T) {
 			}
 		}
 
-		got, conc, err := zzC16Run(&in, rng, uint64(i+1))
+		got, conc, err := live.run(&in, rng)
 		if err != nil {
 			continue
 		}
